@@ -48,7 +48,7 @@ func cfgString(t topics.PredefinedTopics) string {
 func TestC05(t *testing.T) {
 	rep := explore.NewReport("C05", "exploration")
 	vals := []string{"<absent>", "", "x", "y"}
-	names := []string{"", "x", "y", "q"}
+	names := []string{"", "x", "y", "q", "x ", " y", "X"} // also names differing from configured ones only by blanks / case
 	clients := []string{"c1", "c2", "*"}
 	viol := map[string]explore.Violation{}
 	add := func(sig, detail string) {
@@ -161,7 +161,7 @@ func TestC05(t *testing.T) {
 		"distinct_nontrivial": nontrivial,
 		"configurations":      configs,
 		"exhaustive":          true,
-		"rule":                "all 4096 maps {c1,*} x id{1,2,3} -> {absent,\"\",x,y} (tables without entries both missing and empty), all 59049 maps {c1,*} x id{0,1,0xFFFD,0xFFFE,0xFFFF} -> {absent,x,y} (the ends of the id range) plus topics/testdata/topics.yaml; client ids {c1,c2,*}; every id of the domain (0..4, resp. 0,1,2,0xFFFD..0xFFFF) and every name {\"\",x,y,q}; GetTopicName against the precedence reference, every GetTopicID result must read back as the same name, and an id must be found whenever one resolves to the name; non-trivial = configurations with entries in both tables",
+		"rule":                "all 4096 maps {c1,*} x id{1,2,3} -> {absent,\"\",x,y} (tables without entries both missing and empty), all 59049 maps {c1,*} x id{0,1,0xFFFD,0xFFFE,0xFFFF} -> {absent,x,y} (the ends of the id range) plus topics/testdata/topics.yaml; client ids {c1,c2,*}; every id of the domain (0..4, resp. 0,1,2,0xFFFD..0xFFFF) and every name {\"\",x,y,q,\"x \",\" y\",X}; GetTopicName against the precedence reference, every GetTopicID result must read back as the same name, and an id must be found whenever one resolves to the name; non-trivial = configurations with entries in both tables",
 		"samples":             []string{"c1:{1:\"x\"} *:{1:\"y\" 2:\"x\"}", "topics/testdata/topics.yaml"},
 	}
 	rep.Assumptions = []string{"Go map iteration order is not controllable: lookups by name are repeated 8 times per query"}
